@@ -411,17 +411,20 @@ func pcStrings(pc []Term) []string {
 // check runs PC ∧ extra on the unit's solver.
 func (u *Unit) check(st *State, extra ...Term) string {
 	u.flushDecls()
-	as := pcStrings(st.PC)
+	as := append([]string(nil), st.PCs...)
+	var ex []string
 	for _, e := range extra {
-		as = append(as, e.String())
+		ex = append(ex, e.String())
 	}
+	as = append(as, ex...)
 	key := strings.Join(as, "\x00")
 	if r, ok := u.cacheRes[key]; ok {
 		return r
 	}
 	u.queries++
 	t0 := time.Now()
-	r := u.sol.Check(as)
+	u.flushDecls() // extra terms may have declared something
+	r := u.sol.CheckInc(st.PCs, ex)
 	if d := time.Since(t0); d > 150*time.Millisecond {
 		u.slowQueries++
 		u.slowSecs += d.Seconds()
@@ -453,7 +456,7 @@ func (u *Unit) Prove(st *State, name, class string, tags []string, pos token.Pos
 		st.Assume(goal)
 		return true
 	}
-	f := &Failure{Asserts: append(pcStrings(st.PC), Not(goal).String()), Goal: goal.String(), Result: r, Trace: append([]string(nil), st.Trace...)}
+	f := &Failure{Asserts: append(append([]string(nil), st.PCs...), Not(goal).String()), Goal: goal.String(), Result: r, Trace: append([]string(nil), st.Trace...)}
 	for _, v := range values {
 		f.Values = append(f.Values, v.String())
 		if v.Sort == SStr {
